@@ -170,6 +170,25 @@ func (ex *Exec) model(g *G, fr *Frame, fn *ssa.Function, name string, args []Val
 	case "(*sync.RWMutex).RUnlock":
 		ex.mutexRUnlock(g, args[0].(*PtrV))
 		return true, noResult
+	case "(*sync.Once).Do":
+		// model: the first caller runs f (others do not wait for it to finish: approximation)
+		oc := args[0].(*PtrV).Cell
+		if ex.onceDone == nil {
+			ex.onceDone = map[*Cell]bool{}
+		}
+		if ex.onceDone[oc] {
+			return true, noResult
+		}
+		if ex.merging > 0 {
+			panic(mergeAbort{"sync.Once in arm"})
+		}
+		ex.onceDone[oc] = true
+		f := args[1].(*FuncV)
+		if f.Fn == nil {
+			ex.goPanic("sync.Once.Do(nil)")
+		}
+		ex.pushFrame(g, f.Fn, nil, f.Binds, nil)
+		return true, noResult
 	// ---- errors / fmt ----
 	case "errors.New":
 		return true, ex.newError(args[0].(*StrV), nil)
